@@ -866,6 +866,11 @@ enum Sweep {
     Unequal { bg: Vec<usize>, pos: usize },
     /// merge(A,B) vs merge(B,A) through `apply_remote_delta`, (v,w) over base x base at `pos`
     MergeOrder { bg: Vec<usize>, pos: usize, vi: usize },
+    /// two keys i < j, values (v, w) over the base list: {i:v, j:w} vs {i:w, j:v} (versions swapped between
+    /// two keys) and {i:v, j:v} vs {i:w, j:w} (both keys move together) - states that a digest which does not
+    /// bind every version to its key cannot tell apart. Two keys carrying equal stamps occur whenever a
+    /// replica's keys are stamped by several clocks (the production node runs one clock per shard).
+    Swap { bg: Vec<usize>, i: usize, j: usize },
 }
 
 #[derive(Clone, Debug)]
@@ -996,6 +1001,51 @@ fn run_item(it: &Item, ctx: &Ctx) -> ItemResult {
                         }
                     }
                     push(out, &mut viols);
+                }
+            }
+        }
+        Sweep::Swap { bg, i, j } => {
+            let mk = |a: usize, b: usize| -> Content {
+                let mut c: Content = Vec::new();
+                for (x, k) in it.keys.iter().enumerate() {
+                    if x == *i {
+                        c.push((k.clone(), ctx.vals[a].clone()));
+                    } else if x == *j {
+                        c.push((k.clone(), ctx.vals[b].clone()));
+                    } else {
+                        c.push((k.clone(), ctx.core[bg[x]].clone()));
+                    }
+                }
+                c
+            };
+            for (ai, &v) in ctx.mlist.iter().enumerate() {
+                for &w in &ctx.mlist[ai + 1..] {
+                    if !ctx.jointly_reachable(v, w) {
+                        cov.pairs_not_jointly_reachable += 1;
+                        continue;
+                    }
+                    for (ca, cb) in [(mk(v, w), mk(w, v)), (mk(v, v), mk(w, w))] {
+                        let d = match judge(&ca, &cb) {
+                            Judge::Unequal(d) => d,
+                            Judge::Equal => continue,
+                            Judge::InternalOnly => {
+                                cov.pairs_internal_only += 1;
+                                continue;
+                            }
+                        };
+                        nontrivial += 1;
+                        let mut out = Vec::new();
+                        let pa = build_pool(&ca, it.depth, &[Kind::Insert], 1, "swap sweep (pool)", &ctx.recipes, &mut cov, &mut out);
+                        let pb = build_pool(&cb, it.depth, &[Kind::Insert], 1, "swap sweep (pool)", &ctx.recipes, &mut cov, &mut out);
+                        observed_min = observed_min.min(pa.len()).min(pb.len());
+                        for a in &pa {
+                            for b in &pb {
+                                cov.neq_comparisons += 1;
+                                check_unequal(it.depth, &ca, &cb, a, b, &d, "swap sweep", &ctx.recipes, &mut out);
+                            }
+                        }
+                        push(out, &mut viols);
+                    }
                 }
             }
         }
@@ -1800,6 +1850,13 @@ fn main() {
         let nbg = if thorough { 3 } else { 1 };
         for g in 0..nbg {
             let bg: Vec<usize> = (0..n).map(|i| (i + 2 * g) % core.len()).collect();
+            if g == 0 {
+                for i in 0..n {
+                    for j in i + 1..n {
+                        items.push(Item { depth: *depth, keys: keys.clone(), sweep: Sweep::Swap { bg: bg.clone(), i, j } });
+                    }
+                }
+            }
             for pos in 0..n {
                 items.push(Item { depth: *depth, keys: keys.clone(), sweep: Sweep::Unequal { bg: bg.clone(), pos } });
                 if g == 0 {
@@ -1825,6 +1882,7 @@ fn main() {
             Sweep::Equal { .. } => sw == "equal",
             Sweep::Unequal { .. } => sw == "unequal",
             Sweep::MergeOrder { .. } => sw == "merge",
+            Sweep::Swap { .. } => sw == "swap",
         });
     }
     let t0 = rep.elapsed_s();
@@ -1848,6 +1906,7 @@ fn main() {
                 Sweep::Equal { .. } => "equal",
                 Sweep::Unequal { .. } => "unequal",
                 Sweep::MergeOrder { .. } => "merge_order",
+                Sweep::Swap { .. } => "swap",
             })
             .or_default() += 1;
         let e = orders.entry(r.label.clone()).or_insert((r.orders_possible, usize::MAX));
